@@ -28,6 +28,9 @@ tie:   2-5 real callers of functions protected by `thunder_protection` - bare, a
        copy of its context) that call while a later execution is in flight, keys depend on the template context
        (`key_context(tenant=...)`, same call arguments) and on the type of equal arguments (1 / 1.0 / True); upper=True
        variants go through the facade's other code path ("D49:upper-unprotected" without its repair).
+       Further: STACKS of two protected decorators with coarser / equal / finer outer key templates; bodies that RETURN
+       error-like objects (an Exception instance, a BaseException instance, a wrapper) which every waiter must receive as
+       a value; a stage with two event loops one after the other ("D70:stale-loop-entry" without its repair).
        After every scheduler step the observable state (what each caller has received, bodies
        running / started per key, the clock) is compared with
          (a) the Lean model replaying the recorded trace (driver_c07), and
@@ -35,6 +38,7 @@ tie:   2-5 real callers of functions protected by `thunder_protection` - bare, a
 """
 from __future__ import annotations
 
+import asyncio
 import itertools
 import json
 from pathlib import Path
@@ -93,8 +97,15 @@ def item_of(ent, cinfo, variant):
     if kind == "c":
         c = cinfo[i]
         _, k_, n, k, val = c[:5]
-        out = f"e{val % sfexc.NSHAPES}.{i}" if k == "e" else f"{k}{val}"      # an exception's payload: the id of the execution
-        item = f"c{i}:{sfimpl.key_id(variant, k_, sfimpl.arg_of(c))}:{sfimpl.gates_of(variant, n, k)}:{out}"
+        if k == "e":
+            out = f"e{val % sfexc.NSHAPES}.{i}"        # an exception's payload: the id of the execution
+        elif k == "v":
+            # a returned error-like object: a value; `n`: one that the cache decorator of the variant does not store
+            keeps = sfimpl.kept(variant, k, val) or not sfimpl.CACHING[variant]
+            out = ("r" if keeps else "n") + str(sfexc.value_code(val, i))
+        else:
+            out = f"{k}{val}"      # an exception's payload: the id of the execution
+        item = f"c{i}:{sfimpl.key_id(variant, k_, sfimpl.arg_of(c))}:{sfimpl.gates_of(variant, n, k, val)}:{out}"
         if sfimpl.TWO_PARAM.get(variant) == "omit":
             item += f":a{sfimpl.arg_of(c)}"        # the argument the key template leaves out (model: Act.callWith)
         return item
@@ -184,6 +195,7 @@ def compare(case, run, answers):
 
 D44 = "D44:early-overlapping-recalculation"
 D49 = "D49:upper-unprotected"
+D70 = "D70:stale-loop-entry"
 PRIORITY = [D44, D49, "cancel_spreads", "two_bodies", "wrong_outcome", "stuck", "exec_cancelled", "exec_lost", "exec_not_started"]
 
 
@@ -197,7 +209,14 @@ def code_of(kind, val, x):
         return "K"          # the execution ended cancelled: its waiters get CancelledError
     if kind == "e":
         return f"E{val % sfexc.NSHAPES}.{x}"      # THE exception its body raises (shape, payload of execution x)
+    if kind == "v":
+        return f"R{sfexc.value_code(val, x)}"     # the error-like object its body RETURNS: a value
     return "R" + str(val)
+
+
+def stored_val(kind, val, x):
+    """the value a later hit delivers: the int a body returned, or the code of the error-like object execution x returned"""
+    return val if kind == "r" else sfexc.value_code(val, x)
 
 
 def oracle(case, run):
@@ -427,12 +446,12 @@ def oracle(case, run):
                     if live:
                         viol.append(("exec_cancelled", f"the recalculation started by caller {x}'s execution (key {k}) was "
                                                        f"cancelled while callers {live} waited for it"))
-                elif kind == "r":
-                    cache_val[k] = (val, now + ettl, now + ttl)
+                elif sfimpl.kept(case["variant"], kind, val):
+                    cache_val[k] = (stored_val(kind, val, x), now + ettl, now + ttl)
                 continue
             r = recs.get(x)
             if r is not None:
-                if gated and kind == "r" and how == "ok":
+                if gated and sfimpl.kept(case["variant"], kind, val) and how == "ok":
                     r["body_done"] = True          # still in flight: the decorator has yet to store the result
                 else:
                     r["ended"] = True
@@ -451,6 +470,12 @@ def oracle(case, run):
                         hit("exception_with_nontrivial_constructor_fanout")
                 if kind == "r" and len(live) >= 2:
                     hit("result_fanout")
+                if kind == "v" and how == "ok":
+                    hit("error_like_object_returned_as_a_value")
+                    if len(live) >= 2:
+                        hit("returned_error_like_object_fanout")
+                    if caching and not sfimpl.kept(case["variant"], kind, val):
+                        hit("returned_value_not_stored_by_the_decorator")
             if how == "cancelled":
                 live = [w for w in (r["waiters"] if r else []) if w not in cancelled]
                 if live:
@@ -460,8 +485,8 @@ def oracle(case, run):
                     # nobody is affected: not against the property's text; the model (shielded await: the execution
                     # goes on) will differ and say so
                     hit("exec_cancelled_with_no_waiter_left")
-            elif caching and kind == "r":
-                cache_val[k] = (val, now + ettl, now + ttl)
+            elif caching and sfimpl.kept(case["variant"], kind, val):
+                cache_val[k] = (stored_val(kind, val, x), now + ettl, now + ttl)
         elif t == "stored":
             r = recs.get(ev[1])
             if r is not None:
@@ -700,6 +725,87 @@ def report(chk: Check, case, run, viol, origin, answers=None, diff=None):
 
 
 # ------------------------------------------------------------------------------------------------------------
+# two event loops, one after the other (D70)
+
+# (no lock=True variant: the lock key taken by the execution of the dead loop legitimately blocks until its ttl - C05/C06)
+DEAD_LOOP_VARIANTS = ["bare", "bare_default", "cache", "early", "early_fg", "soft", "cache_upper", "early_upper",
+                      "soft_upper", "stack_coarse"]
+
+
+def dead_loop_stage(variant: str):
+    """Loop 1: the only caller of f(0) gives up while the execution is in flight; the loop is closed without draining (the
+    execution can never finish).  Loop 2, same process, same decorated function: two overlapping calls f(0).  By the property
+    nothing is in flight for the key in loop 2 - an execution whose loop is gone is not 'in flight' -, so the first call starts
+    an execution and the second joins it: one more body, both receive its result.  Assumption instead of a model of loops: an
+    entry of a loop that is gone counts as absent (the Lean model has one loop).  Returns (problem text or None, details)."""
+    calls = {"n": 0, "running": 0, "peak": 0}
+    holder = {}
+
+    async def body(k_, s_):
+        calls["n"] += 1
+        me = calls["n"]
+        calls["running"] += 1
+        calls["peak"] = max(calls["peak"], calls["running"])
+        try:
+            if me == 1:
+                await asyncio.Event().wait()        # never returns: its loop is closed underneath it
+            await asyncio.sleep(0)
+            return 70 + me
+        finally:
+            calls["running"] -= 1
+
+    async def first():
+        holder["f"], holder["cache"] = sfimpl.build(variant, body)
+        t = asyncio.ensure_future(holder["f"](0, 0, False))
+        for _ in range(20):
+            await asyncio.sleep(0)
+        t.cancel()                                  # the caller times out
+        for _ in range(5):
+            await asyncio.sleep(0)
+        return calls["n"]
+
+    async def second():
+        f = holder["f"]
+        try:
+            return await asyncio.wait_for(asyncio.gather(f(0, 0, False), f(0, 0, True), return_exceptions=True), 64)
+        except asyncio.TimeoutError:
+            return "never returned"
+
+    def run_on_new_loop(coro_fn, drain):
+        loop = sfimpl.vtime.VLoop()      # with the sleep(0)-spin rule: a busy wait lets virtual time pass, `wait_for` ends it
+        asyncio.set_event_loop(loop)
+        try:
+            return loop.run_until_complete(coro_fn())
+        finally:
+            if drain:
+                pending = [t for t in asyncio.all_tasks(loop) if not t.done()]
+                for t in pending:
+                    t.cancel()
+                if pending:
+                    loop.run_until_complete(asyncio.gather(*pending, return_exceptions=True))
+            asyncio.set_event_loop(None)
+            loop.close()
+
+    sfimpl.vtime.CLOCK.reset()
+    n1 = run_on_new_loop(first, drain=False)
+    calls["running"] = 0            # the body of loop 1 is gone with its loop
+    res = run_on_new_loop(second, drain=True)
+    shown = res if isinstance(res, str) else [r if isinstance(r, int) else f"{type(r).__name__}: {str(r)[:90]}" for r in res]
+    details = {"stage": "dead_loop", "variant": variant, "bodies_started_in_loop_1": n1, "loop_2_results": shown,
+               "bodies_started_in_all": calls["n"], "bodies_at_once_in_loop_2": calls["peak"]}
+    if n1 != 1:
+        raise HarnessError(f"C07 dead-loop stage ({variant}): {n1} bodies started in loop 1")
+    if res == "never returned":
+        return "the calls of loop 2 never return: they wait for the execution of a loop that is gone", details
+    if any(not isinstance(r, int) for r in res):
+        return (f"a call in loop 2 fails with {shown}: it was joined to the execution left behind by loop 1 (that loop is gone; "
+                f"nothing is in flight for the key)"), details
+    if calls["n"] != 2 or res[0] != res[1] or res[0] != 72:
+        return f"loop 2: results {shown}, {calls['n'] - 1} bodies started (expected one, shared by both callers)", details
+    return None, details
+
+
+# ------------------------------------------------------------------------------------------------------------
 # case sources
 
 def corpus_cases():
@@ -712,7 +818,7 @@ def corpus_cases():
 def gen_case(rng, variant):
     m = rng.choice([2, 3, 3, 4, 4, 5])
     nk = rng.choice([1, 1, 2, 2, 3])
-    timed = rng.random() < 0.4          # time passes during the run; ttl of 1 or 2 seconds
+    timed = rng.random() < 0.4 and variant not in sfimpl.UNTIMED          # time passes during the run; ttl of 1 or 2 seconds
     ttl = rng.choice([8, 8, 16]) if timed else None
     # early with an early_ttl the run can reach: stored values go stale, stale hits start recalculations that outlive
     # their lock key (early_ttl) and the stored value (ttl)
@@ -723,8 +829,11 @@ def gen_case(rng, variant):
     for i in range(1, m + 1):
         key = 0 if rng.random() < 0.5 else rng.randrange(nk)
         p = rng.random()
-        kind = "r" if p < 0.6 else ("e" if p < 0.82 else "k")
-        val = 10 + i if kind == "r" else (rng.randrange(sfexc.NSHAPES) if kind == "e" else rng.randrange(3))
+        kind = "r" if p < 0.52 else ("e" if p < 0.74 else ("k" if p < 0.88 else "v"))
+        val = 10 + i if kind == "r" else (rng.randrange(sfexc.NSHAPES) if kind == "e" else
+                                          rng.randrange(sfexc.NVALUES) if kind == "v" else rng.randrange(3))
+        if kind == "v" and variant in sfimpl.STACKS:
+            val = 1 + val % 2           # values every layer stores
         c = [i, key, rng.choice([1, 1, 2, 3, 0]) if timed else rng.randrange(4), kind, val]
         if recalc and i == 1 and rng.random() < 0.7:
             c[2], c[3], c[4] = 0, "r", 11          # the first call fills the cache at once
@@ -765,7 +874,7 @@ def gen_case(rng, variant):
 def timed_programs(thorough: bool):
     """(callers, variants, opts): programs enumerated with TIME STEPS as an extra branch at every scheduler step (opts:
     ttl in ticks, the sizes a time step can have, how many time steps a schedule may contain, cancellations)"""
-    ALL = sfimpl.VARIANTS
+    ALL = [v for v in sfimpl.VARIANTS if v not in sfimpl.UNTIMED]
     CACHED = [v for v in ALL if sfimpl.CACHING[v]]
     progs = []
     # an execution in flight for exactly ttl / ttl+1 ticks (thorough: 1, 2, ttl, ttl+1) when the second caller arrives,
@@ -856,6 +965,14 @@ def sharing_programs(thorough: bool):
     # same call arguments under another template context / arguments that compare equal but render differently: other
     # key, other execution; the same (k, context / type): one execution
     progs.append(([[1, 1, 1, "r", 7, 0], [2, 1, 1, "e", 1, 1], [3, 1, 0, "r", 9, 0]], KEYED, {"cancel_budget": cb}))
+    # STACKS of two protected decorators with key templates of different granularity: callers that agree on k and differ in
+    # the parameter only one of the layers has in its key share one body and one result, at every point of every interleaving
+    progs.append(([[1, 0, 1, "r", 7, 0], [2, 0, 1, "e", 3, 1], [3, 0, 0, "r", 9, 2]], list(sfimpl.STACKS), {"cancel_budget": cb}))
+    # a body that RETURNS an error-like object (Exception instance, BaseException instance, wrapper): a value for every waiter
+    NS = [v for v in PLAIN if v not in sfimpl.STACKS]
+    for shape in range(sfexc.NVALUES):
+        vs = [NS[(shape * 7 + t * 3) % len(NS)] for t in range(6 if thorough else 3)] + (["soft", "bare"] if shape == 0 else [])
+        progs.append(([[1, 0, 1, "v", shape, 0], [2, 0, 0, "r", 8, 0], [3, 0, 1, "r", 9, 0]], vs, {"cancel_budget": cb}))
     if thorough:
         progs.append(([[1, 1, 1, "r", 7, 0], [2, 1, 0, "r", 8, 2], [3, 1, 1, "e", 2, 1], [4, 1, 0, "r", 9, 2]],
                       ["bare_ctx", "cache_typed", "early_ctx", "cache_lock_typed"], {"cancel_budget": 0}))
@@ -1028,6 +1145,19 @@ def run(chk: Check) -> int:
             flush()
         return r
 
+    # 0. two event loops one after the other: the registry entry of a loop that is gone
+    dead_loop = {}
+    dead_reported = 0
+    for v in DEAD_LOOP_VARIANTS:
+        problem, details = dead_loop_stage(v)
+        dead_loop[v] = "ok" if problem is None else problem
+        evaluations += 1
+        if problem is not None and dead_reported < 1:
+            # reported once, and not counted against the search below: the schedules are still explored
+            chk.violation(f"single-flight violated ({v}, two event loops one after the other): {problem}",
+                          {**details, "replay_cmd": "./check C07 --replay <this file>"}, signature=D70)
+            dead_reported += 1
+
     # 1. corpus
     ncorpus = 0
     for origin, case in corpus_cases():
@@ -1075,7 +1205,7 @@ def run(chk: Check) -> int:
     flush()
 
     # 3. random schedules with bursts and up to two cancellations
-    n = chk.budget(4000, 6000)
+    n = chk.budget(3000, 6000)
     for i in range(n):
         if found >= 3:
             break
@@ -1117,6 +1247,7 @@ def run(chk: Check) -> int:
             "detail": exhaustive_info if len(exhaustive_info) <= 40 else exhaustive_info[:40],
         },
         "corpus_cases": ncorpus,
+        "dead_loop_stage": dead_loop,
         "variant_histogram": variants_hist,
         "step_histogram": step_hist,
         "interesting_states_cases": interesting,
@@ -1149,6 +1280,15 @@ def run(chk: Check) -> int:
 
 def replay(chk: Check, path: str) -> int:
     c = json.loads(Path(path).read_text())
+    if c.get("stage") == "dead_loop":
+        problem, details = dead_loop_stage(c["variant"])
+        print(json.dumps(details, indent=1))
+        if problem is None:
+            print("replay: no disagreement")
+            return 0
+        print("property:", problem)
+        print(f"VIOLATION property={PROP} replay={path}")
+        return 1
     case = c["case"]
     r, viol, _ = judge(case)
     ans = ask_model([(case, r)])[0]
